@@ -51,6 +51,9 @@ CLAIMED = {
     "C16": ("other", "static state-coverage analysis of the real AST (constructor parameters vs clone_from_state / _restore_from_state) + native twin-continuation monitor (bounded): get_state / clone_from_state at every prefix, dill pickling of schedulers",
             "State coverage: every constructor parameter of RandomSearcher / GridSearcher is passed by clone_from_state, restored from the state dictionary, or listed as irrelevant (12 obligations). Bounded native twin continuation: 7 searcher cases (random / grid, duplicates, initial points) snapshotted and re-created in a fresh instance at every prefix of a 10-event history, 4 schedulers pickled with dill at 3 positions, GP-FIFO searcher at 2 positions; original and copy are continued and compared. F3 (GridSearcher) is a recorded known finding; the RandomSearcher crash was repaired.",
             "dill round trip only observed through continued traces; GP multi-fidelity searcher and HyperTune not exercised; fitted GP hyper-parameters compared only through suggestions; bounded histories.", "5/C16"),
+    "C15": ("exploration", "relational (two-run) contracts by self-composition: the real classes instantiated in both modes and driven through the same symbolic event sequence (pyvc, bounded shapes), z3",
+            "Bounded stand-in: stopping-type and promotion-type rung systems, the RUSH threshold rule and synchronous Hyperband's top list give identical decisions / promotions / rankings for (min, v) and (max, -v) for all values in general position (<= 4 entries); the best-trial report, running statistics and MOASHA's per-metric sign mapping are shared contracts (C17, C19).",
+            "A-REAL; general position (distinct values, no value on a threshold); PASHA ranking, DEHB, PBT quantiles, regularised evolution, median rule and ExperimentResult are not covered.", "5/C15"),
     "C04": ("proof", "contract-based deductive verification: VCs generated from the real AST (pyvc) with loop invariants and modular callee contracts, discharged by z3/cvc5; bounded-shape stand-in for the cost-aware variant and for witnesses",
             "Unbounded verification conditions (rung contents of any length, 0..3 rungs) for PromotionRungSystem (find/mark/schedule/add/report/remove) and PASHA's resource cap in on_task_schedule, from /repo's source on every run; cost-aware eligibility bounded (<=4 entries).",
             "A-REAL; SortedList contract trusted; number of rungs concrete in proof units; cost values non-negative; PASHA ranking/epsilon logic and DyHPO not covered; pyvc encoding and SMT solvers trusted.", "5/C04"),
